@@ -426,3 +426,42 @@ func (r *Run) FinishShard() {
 
 // SetShardMode makes Violation() collect instead of print (child processes).
 func (r *Run) SetShardMode() { r.shardMode = true }
+
+// MergeDump merges a shard dump file into r (mu serialises concurrent callers).
+func MergeDump(r *Run, path string, mu *sync.Mutex) error {
+	f, err := os.Open(path)
+	if err != nil {
+		return err
+	}
+	defer f.Close()
+	var d shardDump
+	if err := gob.NewDecoder(f).Decode(&d); err != nil {
+		return err
+	}
+	mu.Lock()
+	defer mu.Unlock()
+	r.Evals += d.Evals
+	r.Transitions += d.Transitions
+	for _, h := range d.Distinct {
+		r.distinct[h] = struct{}{}
+	}
+	for _, h := range d.Nontrivial {
+		r.nontrivial[h] = struct{}{}
+	}
+	for _, s := range d.Samples {
+		r.Sample(s)
+	}
+	for _, c := range d.Caps {
+		r.Cap(c)
+	}
+	for k, v := range d.Counters {
+		r.counters[k] += v
+	}
+	for k, v := range d.Extra {
+		r.Extra[k] = v
+	}
+	for _, v := range d.Violations {
+		r.Violation(v.Sig, v.Key, v.Msg, v.Replay)
+	}
+	return nil
+}
